@@ -82,8 +82,9 @@ def mk_self(stack_field):
 def evaluate(F, fn, height, extra, stack_field, inline_extra=None):
     pops = tuple(Sym("p%d" % i) for i in range(height))
     me = mk_self(stack_field)
-    it = Interp(fn.body, chain(StackModel(stack_field), std_oracle), [me] + list(extra), facts=F,
-                inline=lambda k: k.startswith(PK) or (inline_extra and inline_extra(k)))
+    from collmodel import coll_oracle, install
+    it = install(Interp(fn.body, chain(StackModel(stack_field), coll_oracle, std_oracle), [me] + list(extra), facts=F,
+                        inline=lambda k: k.startswith(PK) or (inline_extra and inline_extra(k))))
     it.init_state = {"stack": pops}
     return pops, it.run()
 
@@ -219,7 +220,8 @@ def r3(ctx):
                 if f.get("name") in ("borrow", "borrow_mut", "try_borrow", "try_borrow_mut") and (f.get("gargs") or [""])[0].startswith(POP):
                     return popsym
                 return TOP
-            it = Interp(fn.body, chain(oracle, StackModel(sf), std_oracle), [me, Sym("problem"), Sym("state")], facts=F, inline=lambda kk: kk.startswith(PK))
+            from collmodel import coll_oracle, install
+            it = install(Interp(fn.body, chain(oracle, StackModel(sf), coll_oracle, std_oracle), [me, Sym("problem"), Sym("state")], facts=F, inline=lambda kk: kk.startswith(PK)))
             it.init_state = {"stack": pops}
             cnt += 1
             for p in it.run():
